@@ -401,7 +401,7 @@ Proof.
 Qed.
 
 (* every wire whatsoever: Deliver / Drop / Close, bytes only moved, header within capacity;
-   more than ttl hop words are never admitted *)
+   more than ttl hop words are never letin *)
 Theorem fam_total_bounded p ttl w :
   (match f_front_recv F p ttl w with
    | RDeliver m => wire_of m = be32 p ++ w /\ length (pm_hdr m) <= RT_HEADER_MAX /\ length (pm_hdr m) <= 4 + 4 * ttl
@@ -422,7 +422,7 @@ Proof.
     + now apply (law_back_nodrop F L) in E.
 Qed.
 
-Theorem fam_overlong_never_admitted ws rest p ttl : Forall (nonend F) ws -> ttl <= length ws ->
+Theorem fam_overlong_never_letin ws rest p ttl : Forall (nonend F) ws -> ttl <= length ws ->
   (forall m, f_front_recv F p ttl (flat ws ++ rest) <> RDeliver m) /\
   (forall m, f_cooked_recv F ttl (flat ws ++ rest) <> RDeliver m).
 Proof.
